@@ -2,8 +2,8 @@
 //! closed-form wrappers (`details::*`), the free functions `query::{distance,closest_points,contact,intersection_test}`
 //! on the closed-form routes (bit-exact) and on GJK routes (oracle-only, both orders + common isometry).
 use crate::util::*;
-use crate::p3::query::{self, details, ClosestPoints, Contact, ShapeCastHit, ShapeCastStatus};
-use crate::p3::shape::{Ball, Capsule, Cuboid, HalfSpace, Segment, Shape, SupportMap, Triangle};
+use crate::p3::query::{self, details, ClosestPoints, Contact, DefaultQueryDispatcher, PointQuery, QueryDispatcher, ShapeCastHit, ShapeCastOptions, ShapeCastStatus};
+use crate::p3::shape::{Ball, Capsule, Compound, Cuboid, HalfSpace, Segment, Shape, SharedShape, SupportMap, TriMesh, TriMeshFlags, Triangle};
 use crate::p3::na;
 use d3::{Isometry, Point, Real, Vector};
 
@@ -16,6 +16,10 @@ pub enum Sh {
     Capsule(Point<Real>, Point<Real>, f64),
     Triangle(Point<Real>, Point<Real>, Point<Real>),
     Segment(Point<Real>, Point<Real>),
+    /// parts with their own poses (parts are never composite themselves)
+    Compound(Vec<(Isometry<Real>, Sh)>),
+    /// flags (TriMeshFlags bits), vertices, triangles
+    TriMesh(u16, Vec<Point<Real>>, Vec<[u32; 3]>),
 }
 pub fn sh(a: &mut Args) -> Sh {
     match a.tok() {
@@ -25,6 +29,9 @@ pub fn sh(a: &mut Args) -> Sh {
         "capsule" => { let p = d3::p(a); let q = d3::p(a); Sh::Capsule(p, q, a.f()) }
         "triangle" => { let p = d3::p(a); let q = d3::p(a); let r = d3::p(a); Sh::Triangle(p, q, r) }
         "segment" => { let p = d3::p(a); let q = d3::p(a); Sh::Segment(p, q) }
+        "compound" => { let n = a.u(); Sh::Compound((0..n).map(|_| { let m = d3::iso(a); let s = sh(a); (m, s) }).collect()) }
+        "trimesh" => { let f = a.u() as u16; let nv = a.u(); let vs = (0..nv).map(|_| d3::p(a)).collect();
+            let nt = a.u(); let ts = (0..nt).map(|_| [a.u() as u32, a.u() as u32, a.u() as u32]).collect(); Sh::TriMesh(f, vs, ts) }
         k => panic!("shape kind {}", k),
     }
 }
@@ -36,6 +43,9 @@ pub fn hsh(s: &Sh) -> String {
         Sh::Capsule(p, q, r) => format!("capsule {} {} {}", d3::hp(p), d3::hp(q), hx(*r)),
         Sh::Triangle(p, q, r) => format!("triangle {} {} {}", d3::hp(p), d3::hp(q), d3::hp(r)),
         Sh::Segment(p, q) => format!("segment {} {}", d3::hp(p), d3::hp(q)),
+        Sh::Compound(ps) => format!("compound {} {}", ps.len(), ps.iter().map(|(m, s)| format!("{} {}", d3::hiso(m), hsh(s))).collect::<Vec<_>>().join(" ")),
+        Sh::TriMesh(f, vs, ts) => format!("trimesh {} {} {} {} {}", f, vs.len(), vs.iter().map(|p| d3::hp(p)).collect::<Vec<_>>().join(" "),
+            ts.len(), ts.iter().map(|t| format!("{} {} {}", t[0], t[1], t[2])).collect::<Vec<_>>().join(" ")),
     }
 }
 pub fn dynsh(s: &Sh) -> Box<dyn Shape> {
@@ -46,6 +56,8 @@ pub fn dynsh(s: &Sh) -> Box<dyn Shape> {
         Sh::Capsule(p, q, r) => Box::new(Capsule::new(*p, *q, *r)),
         Sh::Triangle(p, q, r) => Box::new(Triangle::new(*p, *q, *r)),
         Sh::Segment(p, q) => Box::new(Segment::new(*p, *q)),
+        Sh::Compound(ps) => Box::new(Compound::new(ps.iter().map(|(m, s)| (*m, SharedShape(std::sync::Arc::from(dynsh(s))))).collect())),
+        Sh::TriMesh(f, vs, ts) => Box::new(TriMesh::with_flags(vs.clone(), ts.clone(), TriMeshFlags::from_bits_truncate(*f)).expect("trimesh")),
     }
 }
 fn hs(n: &Vector<Real>) -> HalfSpace { HalfSpace::new(na::Unit::new_unchecked(*n)) }
@@ -178,24 +190,65 @@ pub fn exec(func: &str, a: &mut Args) -> String {
             res(query::intersection_test(&p1, &*dynsh(&s1), &p2, &*dynsh(&s2)), |x| b(*x).to_string()) }
         "q_cp" => { let s1 = sh(a); let p1 = d3::iso(a); let s2 = sh(a); let p2 = d3::iso(a); let p = a.f();
             nopanic(|| res(query::closest_points(&p1, &*dynsh(&s1), &p2, &*dynsh(&s2), p), fcp)) }
-        // ---- oracle-only: any supported pair, three evaluations A=(1,2) B=(2,1) C=(g·1, g·2)
+        // ---- oracle-only: any supported pair (composites included); evaluations A=(1,2) B=(2,1) C=(g·1, g·2) and
+        //      D = dispatcher form (pos12, then back-transform) ; witnesses are followed by `@ m1 m2`, the distance of each
+        //      witness to its own shape as reported by the (independent) point query
         "o_contact" | "o_distance" | "o_it" | "o_cp" => {
             let s1 = sh(a); let p1 = d3::iso(a); let s2 = sh(a); let p2 = d3::iso(a); let g = d3::iso(a);
             let p = if func == "o_contact" || func == "o_cp" { a.f() } else { 0.0 };
             let (g1, g2) = (dynsh(&s1), dynsh(&s2));
             let (q1, q2) = (g * p1, g * p2);
+            let memb = |sa: &dyn Shape, pa: &Isometry<Real>, x: &Point<Real>| ff(sa.distance_to_point(pa, x, true));
             let run = |pa: &Isometry<Real>, sa: &dyn Shape, pb: &Isometry<Real>, sb: &dyn Shape| -> String {
                 match func {
-                    "o_contact" => res(query::contact(pa, sa, pb, sb, p), fcontact),
+                    "o_contact" => match query::contact(pa, sa, pb, sb, p) {
+                        Err(_) => "unsupported".into(),
+                        Ok(None) => "none".into(),
+                        Ok(Some(c)) => format!("{} @ {} {}", fcontact(&Some(c)), memb(sa, pa, &c.point1), memb(sb, pb, &c.point2)),
+                    },
                     "o_distance" => res(query::distance(pa, sa, pb, sb), |x| ff(*x)),
                     "o_it" => res(query::intersection_test(pa, sa, pb, sb), |x| b(*x).to_string()),
-                    _ => res(query::closest_points(pa, sa, pb, sb, p), fcp),
+                    _ => match query::closest_points(pa, sa, pb, sb, p) {
+                        Err(_) => "unsupported".into(),
+                        Ok(ClosestPoints::WithinMargin(x, y)) => format!("within {} {} @ {} {}", d3::fp(&x), d3::fp(&y), memb(sa, pa, &x), memb(sb, pb, &y)),
+                        Ok(c) => fcp(&c),
+                    },
                 }
             };
-            // auxiliary scalars that tell the oracle whether the configuration is near-touching
+            let pos12 = p1.inv_mul(&p2);
+            let dform = match func {
+                "o_contact" => { let mut r = DefaultQueryDispatcher.contact(&pos12, &*g1, &*g2, p);
+                    if let Ok(Some(c)) = &mut r { c.transform_by_mut(&p1, &p2); } res(r, fcontact) }
+                "o_distance" => res(DefaultQueryDispatcher.distance(&pos12, &*g1, &*g2), |x| ff(*x)),
+                "o_it" => res(DefaultQueryDispatcher.intersection_test(&pos12, &*g1, &*g2), |x| b(*x).to_string()),
+                _ => res(DefaultQueryDispatcher.closest_points(&pos12, &*g1, &*g2, p).map(|r| r.transform_by(&p1, &p2)), fcp),
+            };
+            // auxiliary scalars: near-touching indicators and whether pos12 inverts exactly (then both orders see the same data)
             let dist = query::distance(&p1, &*g1, &p2, &*g2).unwrap_or(f64::NAN);
             let depth = match query::contact(&p1, &*g1, &p2, &*g2, 0.0) { Ok(Some(c)) => c.dist, _ => f64::NAN };
-            format!("{} ; {} ; {} ; {} {}", run(&p1, &*g1, &p2, &*g2), run(&p2, &*g2, &p1, &*g1), run(&q1, &*g1, &q2, &*g2), ff(dist), ff(depth))
+            let pos21 = p2.inv_mul(&p1);
+            let rt = d3::hiso(&pos21.inverse()) == d3::hiso(&pos12) && d3::hiso(&pos12.inverse()) == d3::hiso(&pos21);
+            format!("{} ; {} ; {} ; {} ; {} {} {}", run(&p1, &*g1, &p2, &*g2), run(&p2, &*g2, &p1, &*g1), run(&q1, &*g1, &q2, &*g2), dform, ff(dist), ff(depth), b(rt))
+        }
+        // ---- oracle-only shape casts: s1 pos1 vel1 s2 pos2 vel2 g target_distance stop_at_penetration max_toi
+        "o_cast" => {
+            let s1 = sh(a); let p1 = d3::iso(a); let v1 = d3::v(a); let s2 = sh(a); let p2 = d3::iso(a); let v2 = d3::v(a); let g = d3::iso(a);
+            let target = a.f(); let stop = a.b(); let maxtoi = a.f();
+            let opts = ShapeCastOptions { max_time_of_impact: maxtoi, target_distance: target, stop_at_penetration: stop, compute_impact_geometry_on_penetration: true };
+            let (g1, g2) = (dynsh(&s1), dynsh(&s2));
+            let surf = |sa: &dyn Shape, x: &Point<Real>| ff(sa.distance_to_local_point(x, false).abs());
+            let fh = |r: Result<Option<ShapeCastHit>, query::Unsupported>, sa: &dyn Shape, sb: &dyn Shape| -> String {
+                match r { Err(_) => "unsupported".into(), Ok(None) => "none".into(),
+                    Ok(Some(h)) => format!("hit {} @ {} {}", fhit(&h), surf(sa, &h.witness1), surf(sb, &h.witness2)) }
+            };
+            let aa = fh(query::cast_shapes(&p1, &v1, &*g1, &p2, &v2, &*g2, opts), &*g1, &*g2);
+            let bb = fh(query::cast_shapes(&p2, &v2, &*g2, &p1, &v1, &*g1, opts), &*g2, &*g1);
+            let cc = fh(query::cast_shapes(&(g * p1), &(g.rotation * v1), &*g1, &(g * p2), &(g.rotation * v2), &*g2, opts), &*g1, &*g2);
+            let pos12 = p1.inv_mul(&p2); let vel12 = p1.inverse_transform_vector(&(v2 - v1));
+            let dd = fh(DefaultQueryDispatcher.cast_shapes(&pos12, &vel12, &*g1, &*g2, opts), &*g1, &*g2);
+            // distance at the start of the motion: tells the oracle whether the cast starts in contact (a tie)
+            let dist0 = query::distance(&p1, &*g1, &p2, &*g2).unwrap_or(f64::NAN);
+            format!("{} ; {} ; {} ; {} ; {}", aa, bb, cc, dd, ff(dist0))
         }
         f if f.contains("2_") => two::exec(f, a),
         _ => "nofn".into(),
@@ -247,8 +300,82 @@ pub fn size(s: &Sh) -> f64 {
         Sh::Capsule(p, q, r) => p.coords.norm().max(q.coords.norm()) + r,
         Sh::Triangle(p, q, s) => p.coords.norm().max(q.coords.norm()).max(s.coords.norm()),
         Sh::Segment(p, q) => p.coords.norm().max(q.coords.norm()),
+        Sh::Compound(ps) => ps.iter().map(|(m, s)| m.translation.vector.norm() + size(s)).fold(0.0, f64::max),
+        Sh::TriMesh(_, vs, _) => vs.iter().map(|p| p.coords.norm()).fold(0.0, f64::max),
     }
 }
+
+// ---- structured families (follow-up): composites, exact ties, shape casts
+/// unit quaternions whose rotation arithmetic is exact in binary64: identity, half-turns about the axes, (±1±i±j±k)/2
+pub fn exact_quat(r: &mut Rng) -> [f64; 4] {
+    match r.below(3) {
+        0 => [0.0, 0.0, 0.0, 1.0],
+        1 => { let mut q = [0.0; 4]; q[r.below(3) as usize] = 1.0; q }
+        _ => { let mut q = [0.5; 4]; for x in q.iter_mut() { if r.bool() { *x = -*x; } } q }
+    }
+}
+pub fn iso_of(q: [f64; 4], t: Vector<Real>) -> Isometry<Real> {
+    Isometry::from_parts(na::Translation3::from(t), na::Unit::new_unchecked(na::Quaternion::new(q[3], q[0], q[1], q[2])))
+}
+pub fn quarter(r: &mut Rng, k: i64) -> f64 { r.range(-k, k) as f64 * 0.25 }
+/// a moderate-size convex part (ball / cuboid / capsule)
+pub fn gen_part(r: &mut Rng, lat: bool) -> Sh {
+    let e = |r: &mut Rng| if lat { *r.pick(&[0.25, 0.5, 1.0, 1.5, 2.0]) } else { r.uniform(0.2, 2.0) };
+    match r.below(3) {
+        0 => Sh::Ball(e(r)),
+        1 => Sh::Cuboid(Vector::new(e(r), e(r), e(r))),
+        _ => { let c = |r: &mut Rng| if lat { quarter(r, 6) } else { r.uniform(-1.5, 1.5) };
+               let a = Point::new(c(r), c(r), c(r)); let mut bb = Point::new(c(r), c(r), c(r)); if (bb - a).norm() < 0.25 { bb.x += 1.0; }
+               Sh::Capsule(a, bb, e(r).min(1.0)) }
+    }
+}
+/// Compound of 2-4 overlapping parts with rotated part poses
+pub fn gen_compound(r: &mut Rng, lat: bool) -> Sh {
+    let n = 2 + r.below(3) as usize;
+    Sh::Compound((0..n).map(|_| {
+        let q = d3::gen_quat(r, lat);
+        let c = |r: &mut Rng| if lat { quarter(r, 6) } else { r.uniform(-1.5, 1.5) };
+        let t = Vector::new(c(r), c(r), c(r));
+        (iso_of(q, t), gen_part(r, lat))
+    }).collect())
+}
+/// closed triangle mesh (box or tetrahedron, outward orientation), with or without TriMeshFlags::ORIENTED
+pub fn gen_trimesh(r: &mut Rng, lat: bool) -> Sh {
+    let e = |r: &mut Rng| if lat { *r.pick(&[0.5, 1.0, 1.5, 2.0]) } else { r.uniform(0.3, 2.5) };
+    let flags: u16 = if r.below(3) != 0 { TriMeshFlags::ORIENTED.bits() } else { 0 };
+    if r.bool() {
+        let (vs, ts) = Cuboid::new(Vector::new(e(r), e(r), e(r))).to_trimesh();
+        Sh::TriMesh(flags, vs, ts)
+    } else {
+        let k = e(r);
+        let vs = vec![Point::new(k, k, k), Point::new(k, -k, -k), Point::new(-k, k, -k), Point::new(-k, -k, k)];
+        let mut ts: Vec<[u32; 3]> = vec![[0, 1, 2], [0, 1, 3], [0, 2, 3], [1, 2, 3]];
+        for t in ts.iter_mut() {
+            let l = (0..4u32).find(|x| !t.contains(x)).unwrap() as usize;
+            let (a, bb, c) = (vs[t[0] as usize], vs[t[1] as usize], vs[t[2] as usize]);
+            if (bb - a).cross(&(c - a)).dot(&(vs[l] - a)) > 0.0 { t.swap(1, 2); }
+        }
+        Sh::TriMesh(flags, vs, ts)
+    }
+}
+/// a point well inside the composite, in its local frame
+pub fn interior_point(r: &mut Rng, lat: bool, s: &Sh) -> Point<Real> {
+    let f = |r: &mut Rng| if lat { *r.pick(&[-0.5, -0.25, 0.0, 0.25, 0.5]) } else { r.uniform(-0.7, 0.7) };
+    match s {
+        Sh::Compound(ps) => { let (m, part) = r.pick(ps).clone();
+            match part { Sh::Cuboid(he) => m * Point::new(he.x * f(r), he.y * f(r), he.z * f(r)),
+                         Sh::Capsule(a, bb, _) => m * na::center(&a, &bb), _ => m * Point::origin() } }
+        Sh::TriMesh(_, vs, _) => { let c = vs.iter().fold(Vector::zeros(), |acc, p| acc + p.coords) / vs.len() as f64;
+            let v = r.pick(vs); Point::from(c + (v.coords - c) * f(r).abs() * 0.6) }
+        _ => Point::origin(),
+    }
+}
+/// world-axis extent of a posed support-mapped shape: max of `axis . x`
+fn extent_along(s: &Sh, rot: &Isometry<Real>, axis: &Vector<Real>) -> Option<f64> {
+    let g = dynsh(s);
+    g.as_support_map().map(|sm| sm.support_point(rot, axis).coords.dot(axis))
+}
+
 /// two poses whose shapes are near each other (penetrating / touching / separated), never both with identity rotation
 pub fn gen_poses(r: &mut Rng, lat: bool, s1: &Sh, s2: &Sh) -> (Isometry<Real>, Isometry<Real>, Isometry<Real>) {
     let ts = if r.below(4) == 0 { 1000.0 } else { 20.0 };
@@ -370,6 +497,84 @@ pub fn gen(r: &mut Rng, thorough: bool) -> Vec<(String, String)> {
             v.push(("o_distance".into(), sw.clone()));
             v.push(("o_it".into(), sw));
         }
+        // ---- composites: Compound of overlapping rotated parts / closed (oriented) TriMesh against anything,
+        //      the other shape's centre inside the composite in a third of the cases
+        for _ in 0..2 {
+            let comp = if r.below(3) == 0 { gen_trimesh(r, lat) } else { gen_compound(r, lat) };
+            let other = match r.below(8) { 0 => gen_compound(r, lat), 1 => gen_trimesh(r, lat), 2 => Sh::Ball(if lat { *r.pick(&[0.25, 0.5, 1.0]) } else { r.uniform(0.1, 1.5) }),
+                                          3 => Sh::HalfSpace(gen_normal(r, lat)), _ => gen_part(r, lat) };
+            let (p1, mut p2, _) = gen_poses(r, lat, &comp, &other);
+            if r.below(3) == 0 { p2.translation.vector = (p1 * interior_point(r, lat, &comp)).coords; }
+            let (s1, p1, s2, p2) = if r.bool() { (comp, p1, other, p2) } else { (other, p2, comp, p1) };
+            let glat = lat && r.bool(); let g = d3::gen_iso(r, glat, 100.0);
+            let par = gen_param(r, lat);
+            let sw = format!("{} {} {} {} {}", hsh(&s1), d3::hiso(&p1), hsh(&s2), d3::hiso(&p2), d3::hiso(&g));
+            v.push(("o_contact".into(), format!("{} {}", sw, hx(par))));
+            v.push(("o_cp".into(), format!("{} {}", sw, hx(par))));
+            v.push(("o_distance".into(), sw.clone()));
+            v.push(("o_it".into(), sw));
+        }
+        // ---- exact ties: exactly representable data (dyadic sizes, exact rotations), gap along a world axis exactly
+        //      0 (touching) or exactly the margin / prediction
+        if lat {
+            for _ in 0..3 {
+                let dy = |r: &mut Rng| *r.pick(&[0.25, 0.5, 1.0, 1.5, 2.0]);
+                let mk = |r: &mut Rng| -> Sh { match r.below(6) {
+                    0 => Sh::Ball(dy(r)), 1 => Sh::Cuboid(Vector::new(dy(r), dy(r), dy(r))),
+                    2 => Sh::Capsule(Point::new(quarter(r, 4), quarter(r, 4), quarter(r, 4)), Point::new(quarter(r, 4), quarter(r, 4) + 1.0, quarter(r, 4)), dy(r).min(1.0)),
+                    3 => Sh::Triangle(Point::new(quarter(r, 6), quarter(r, 6), quarter(r, 6)), Point::new(quarter(r, 6) + 2.0, quarter(r, 6), quarter(r, 6)), Point::new(quarter(r, 6), quarter(r, 6) + 2.0, quarter(r, 6))),
+                    4 => Sh::Segment(Point::new(quarter(r, 6), quarter(r, 6), quarter(r, 6)), Point::new(quarter(r, 6), quarter(r, 6), quarter(r, 6) + 1.5)),
+                    _ => Sh::HalfSpace(Vector::zeros()) } };
+                let (mut s1, s2) = loop { let a1 = mk(r); let a2 = mk(r); if !matches!(a2, Sh::HalfSpace(_)) { break (a1, a2); } };
+                let ax = r.below(3) as usize; let mut axis = Vector::zeros(); axis[ax] = if r.bool() { 1.0 } else { -1.0 };
+                let r1 = iso_of(exact_quat(r), Vector::zeros()); let r2 = iso_of(exact_quat(r), Vector::zeros());
+                if let Sh::HalfSpace(_) = s1 { s1 = Sh::HalfSpace(r1.inverse_transform_vector(&axis)); }
+                let e1 = match &s1 { Sh::HalfSpace(_) => Some(0.0), x => extent_along(x, &r1, &axis) };
+                let e2 = extent_along(&s2, &r2, &(-axis));
+                if let (Some(e1), Some(e2)) = (e1, e2) {
+                    let par = *r.pick(&[0.0, 0.25, 0.5, 1.0]);
+                    let gap = if r.bool() { 0.0 } else { par };
+                    let t1 = Vector::new(quarter(r, 40), quarter(r, 40), quarter(r, 40));
+                    // lateral shift keeps the extreme point of a ball / vertex over the other shape in most cases
+                    let mut lateral = Vector::new(quarter(r, 1), quarter(r, 1), quarter(r, 1)); lateral[ax] = 0.0;
+                    let p1 = iso_of([r1.rotation.i, r1.rotation.j, r1.rotation.k, r1.rotation.w], t1);
+                    let p2 = iso_of([r2.rotation.i, r2.rotation.j, r2.rotation.k, r2.rotation.w], t1 + axis * (e1 + e2 + gap) + lateral);
+                    let g = iso_of(exact_quat(r), Vector::new(quarter(r, 40), quarter(r, 40), quarter(r, 40)));
+                    let sw = format!("{} {} {} {} {}", hsh(&s1), d3::hiso(&p1), hsh(&s2), d3::hiso(&p2), d3::hiso(&g));
+                    v.push(("o_contact".into(), format!("{} {}", sw, hx(par))));
+                    v.push(("o_cp".into(), format!("{} {}", sw, hx(par))));
+                    v.push(("o_distance".into(), sw.clone()));
+                    v.push(("o_it".into(), sw));
+                }
+            }
+        }
+        // ---- shape casts: both orders, common isometry, dispatcher form; target_distance 0 / > 0, both
+        //      stop_at_penetration, zero and non-unit velocities, finite and unbounded max_toi
+        for _ in 0..3 {
+            let all: [u8; 6] = [0, 1, 2, 3, 4, 5];
+            let (s1, s2) = loop {
+                let pick = |r: &mut Rng| if r.below(8) == 0 { gen_compound(r, lat) } else { gen_shape(r, lat, &all) };
+                let s1 = pick(r); let s2 = pick(r);
+                if !matches!((&s1, &s2), (Sh::HalfSpace(_), Sh::HalfSpace(_))) { break (s1, s2); }
+            };
+            let ts = if r.below(4) == 0 { 1000.0 } else { 20.0 };
+            let p1 = d3::gen_iso(r, lat, ts);
+            let mut p2 = d3::gen_iso(r, lat, 1.0);
+            let reach = size(&s1) + size(&s2);
+            let dir = gen_normal(r, lat);
+            let k = if lat { *r.pick(&[0.5, 1.5, 2.0, 3.0]) } else { r.uniform(0.3, 3.5) };
+            p2.translation.vector = p1.translation.vector + dir * (reach * k + if lat { 0.25 } else { 0.1 });
+            let speed = if lat { *r.pick(&[0.25, 1.0, 4.0]) } else { r.logu(1e-2, 1e2) };
+            let noise = if lat { Vector::new(quarter(r, 1), quarter(r, 1), quarter(r, 1)) * 0.5 } else { d3::gen_v(r, false, 0.3) };
+            let vrel = match r.below(10) { 0 => Vector::zeros(), 1 => dir * speed, _ => (-dir + noise) * speed };
+            let v1 = if r.bool() { Vector::zeros() } else if lat { Vector::new(quarter(r, 8), quarter(r, 8), quarter(r, 8)) } else { d3::gen_v(r, false, 5.0) };
+            let v2 = v1 + vrel;
+            let target = if r.bool() { 0.0 } else if lat { *r.pick(&[0.25, 0.5]) } else { r.logu(1e-2, 1.0) };
+            let maxtoi = match r.below(4) { 0 => reach * k / speed * r.uniform(0.2, 1.5), 1 => 1.0e3, _ => f64::MAX };
+            let glat = lat && r.bool(); let g = d3::gen_iso(r, glat, 100.0);
+            v.push(("o_cast".into(), format!("{} {} {} {} {} {} {} {} {} {}", hsh(&s1), d3::hiso(&p1), d3::hv(&v1), hsh(&s2), d3::hiso(&p2), d3::hv(&v2),
+                d3::hiso(&g), hx(target), b(r.bool()), hx(maxtoi))));
+        }
     }
     v
 }
@@ -377,13 +582,14 @@ pub fn gen(r: &mut Rng, thorough: bool) -> Vec<(String, String)> {
 // ================================================================== 2-D (parry2d-f64)
 pub mod two {
     use crate::util::*;
-    use crate::p2::query::{self, details, ClosestPoints, Contact};
-    use crate::p2::shape::{Ball, Capsule, Cuboid, HalfSpace, Segment, Shape, Triangle};
+    use crate::p2::query::{self, details, ClosestPoints, Contact, DefaultQueryDispatcher, PointQuery, QueryDispatcher, ShapeCastHit, ShapeCastOptions};
+    use crate::p2::shape::{Ball, Capsule, Compound, Cuboid, HalfSpace, Polyline, Segment, Shape, SharedShape, Triangle};
     use crate::p2::na;
     use d2::{Isometry, Point, Real, Vector};
 
     #[derive(Clone, Debug)]
-    pub enum Sh { Ball(f64), Cuboid(Vector<Real>), HalfSpace(Vector<Real>), Capsule(Point<Real>, Point<Real>, f64), Triangle(Point<Real>, Point<Real>, Point<Real>), Segment(Point<Real>, Point<Real>) }
+    pub enum Sh { Ball(f64), Cuboid(Vector<Real>), HalfSpace(Vector<Real>), Capsule(Point<Real>, Point<Real>, f64), Triangle(Point<Real>, Point<Real>, Point<Real>), Segment(Point<Real>, Point<Real>),
+        Compound(Vec<(Isometry<Real>, Sh)>), Polyline(Vec<Point<Real>>) }
     pub fn sh(a: &mut Args) -> Sh {
         match a.tok() {
             "ball" => Sh::Ball(a.f()),
@@ -392,6 +598,8 @@ pub mod two {
             "capsule" => { let p = d2::p(a); let q = d2::p(a); Sh::Capsule(p, q, a.f()) }
             "triangle" => { let p = d2::p(a); let q = d2::p(a); let r = d2::p(a); Sh::Triangle(p, q, r) }
             "segment" => { let p = d2::p(a); let q = d2::p(a); Sh::Segment(p, q) }
+            "compound" => { let n = a.u(); Sh::Compound((0..n).map(|_| { let m = d2::iso(a); let s = sh(a); (m, s) }).collect()) }
+            "polyline" => { let n = a.u(); Sh::Polyline((0..n).map(|_| d2::p(a)).collect()) }
             k => panic!("shape kind {}", k),
         }
     }
@@ -403,6 +611,8 @@ pub mod two {
             Sh::Capsule(p, q, r) => format!("capsule {} {} {}", d2::hp(p), d2::hp(q), hx(*r)),
             Sh::Triangle(p, q, r) => format!("triangle {} {} {}", d2::hp(p), d2::hp(q), d2::hp(r)),
             Sh::Segment(p, q) => format!("segment {} {}", d2::hp(p), d2::hp(q)),
+            Sh::Compound(ps) => format!("compound {} {}", ps.len(), ps.iter().map(|(m, s)| format!("{} {}", d2::hiso(m), hsh(s))).collect::<Vec<_>>().join(" ")),
+            Sh::Polyline(vs) => format!("polyline {} {}", vs.len(), vs.iter().map(|p| d2::hp(p)).collect::<Vec<_>>().join(" ")),
         }
     }
     pub fn dynsh(s: &Sh) -> Box<dyn Shape> {
@@ -413,6 +623,8 @@ pub mod two {
             Sh::Capsule(p, q, r) => Box::new(Capsule::new(*p, *q, *r)),
             Sh::Triangle(p, q, r) => Box::new(Triangle::new(*p, *q, *r)),
             Sh::Segment(p, q) => Box::new(Segment::new(*p, *q)),
+            Sh::Compound(ps) => Box::new(Compound::new(ps.iter().map(|(m, s)| (*m, SharedShape(std::sync::Arc::from(dynsh(s))))).collect())),
+            Sh::Polyline(vs) => Box::new(Polyline::new(vs.clone(), None)),
         }
     }
     fn hs(n: &Vector<Real>) -> HalfSpace { HalfSpace::new(na::Unit::new_unchecked(*n)) }
@@ -456,17 +668,55 @@ pub mod two {
                 let p = if func == "o2_contact" || func == "o2_cp" { a.f() } else { 0.0 };
                 let (g1, g2) = (dynsh(&s1), dynsh(&s2));
                 let (q1, q2) = (g * p1, g * p2);
+                let memb = |sa: &dyn Shape, pa: &Isometry<Real>, x: &Point<Real>| ff(sa.distance_to_point(pa, x, true));
                 let run = |pa: &Isometry<Real>, sa: &dyn Shape, pb: &Isometry<Real>, sb: &dyn Shape| -> String {
                     match func {
-                        "o2_contact" => res(query::contact(pa, sa, pb, sb, p), fcontact),
+                        "o2_contact" => match query::contact(pa, sa, pb, sb, p) {
+                            Err(_) => "unsupported".into(),
+                            Ok(None) => "none".into(),
+                            Ok(Some(c)) => format!("{} @ {} {}", fcontact(&Some(c)), memb(sa, pa, &c.point1), memb(sb, pb, &c.point2)),
+                        },
                         "o2_distance" => res(query::distance(pa, sa, pb, sb), |x| ff(*x)),
                         "o2_it" => res(query::intersection_test(pa, sa, pb, sb), |x| b(*x).to_string()),
-                        _ => res(query::closest_points(pa, sa, pb, sb, p), fcp),
+                        _ => match query::closest_points(pa, sa, pb, sb, p) {
+                            Err(_) => "unsupported".into(),
+                            Ok(ClosestPoints::WithinMargin(x, y)) => format!("within {} {} @ {} {}", d2::fp(&x), d2::fp(&y), memb(sa, pa, &x), memb(sb, pb, &y)),
+                            Ok(c) => fcp(&c),
+                        },
                     }
+                };
+                let pos12 = p1.inv_mul(&p2);
+                let dform = match func {
+                    "o2_contact" => { let mut r = DefaultQueryDispatcher.contact(&pos12, &*g1, &*g2, p);
+                        if let Ok(Some(c)) = &mut r { c.transform_by_mut(&p1, &p2); } res(r, fcontact) }
+                    "o2_distance" => res(DefaultQueryDispatcher.distance(&pos12, &*g1, &*g2), |x| ff(*x)),
+                    "o2_it" => res(DefaultQueryDispatcher.intersection_test(&pos12, &*g1, &*g2), |x| b(*x).to_string()),
+                    _ => res(DefaultQueryDispatcher.closest_points(&pos12, &*g1, &*g2, p).map(|r| r.transform_by(&p1, &p2)), fcp),
                 };
                 let dist = query::distance(&p1, &*g1, &p2, &*g2).unwrap_or(f64::NAN);
                 let depth = match query::contact(&p1, &*g1, &p2, &*g2, 0.0) { Ok(Some(c)) => c.dist, _ => f64::NAN };
-                format!("{} ; {} ; {} ; {} {}", run(&p1, &*g1, &p2, &*g2), run(&p2, &*g2, &p1, &*g1), run(&q1, &*g1, &q2, &*g2), ff(dist), ff(depth))
+                let pos21 = p2.inv_mul(&p1);
+                let rt = d2::hiso(&pos21.inverse()) == d2::hiso(&pos12) && d2::hiso(&pos12.inverse()) == d2::hiso(&pos21);
+                format!("{} ; {} ; {} ; {} ; {} {} {}", run(&p1, &*g1, &p2, &*g2), run(&p2, &*g2, &p1, &*g1), run(&q1, &*g1, &q2, &*g2), dform, ff(dist), ff(depth), b(rt))
+            }
+            "o2_cast" => {
+                let s1 = sh(a); let p1 = d2::iso(a); let v1 = d2::v(a); let s2 = sh(a); let p2 = d2::iso(a); let v2 = d2::v(a); let g = d2::iso(a);
+                let target = a.f(); let stop = a.b(); let maxtoi = a.f();
+                let opts = ShapeCastOptions { max_time_of_impact: maxtoi, target_distance: target, stop_at_penetration: stop, compute_impact_geometry_on_penetration: true };
+                let (g1, g2) = (dynsh(&s1), dynsh(&s2));
+                let surf = |sa: &dyn Shape, x: &Point<Real>| ff(sa.distance_to_local_point(x, false).abs());
+                let fh = |r: Result<Option<ShapeCastHit>, query::Unsupported>, sa: &dyn Shape, sb: &dyn Shape| -> String {
+                    match r { Err(_) => "unsupported".into(), Ok(None) => "none".into(),
+                        Ok(Some(h)) => format!("hit {} {} {} {} {} {} @ {} {}", ff(h.time_of_impact), d2::fp(&h.witness1), d2::fp(&h.witness2), d2::fv(&h.normal1), d2::fv(&h.normal2), h.status as u8,
+                            surf(sa, &h.witness1), surf(sb, &h.witness2)) }
+                };
+                let aa = fh(query::cast_shapes(&p1, &v1, &*g1, &p2, &v2, &*g2, opts), &*g1, &*g2);
+                let bb = fh(query::cast_shapes(&p2, &v2, &*g2, &p1, &v1, &*g1, opts), &*g2, &*g1);
+                let cc = fh(query::cast_shapes(&(g * p1), &(g.rotation * v1), &*g1, &(g * p2), &(g.rotation * v2), &*g2, opts), &*g1, &*g2);
+                let pos12 = p1.inv_mul(&p2); let vel12 = p1.inverse_transform_vector(&(v2 - v1));
+                let dd = fh(DefaultQueryDispatcher.cast_shapes(&pos12, &vel12, &*g1, &*g2, opts), &*g1, &*g2);
+                let dist0 = query::distance(&p1, &*g1, &p2, &*g2).unwrap_or(f64::NAN);
+                format!("{} ; {} ; {} ; {} ; {}", aa, bb, cc, dd, ff(dist0))
             }
             _ => "nofn".into(),
         }
@@ -497,7 +747,53 @@ pub mod two {
             Sh::Capsule(p, q, r) => p.coords.norm().max(q.coords.norm()) + r,
             Sh::Triangle(p, q, s) => p.coords.norm().max(q.coords.norm()).max(s.coords.norm()),
             Sh::Segment(p, q) => p.coords.norm().max(q.coords.norm()),
+            Sh::Compound(ps) => ps.iter().map(|(m, s)| m.translation.vector.norm() + size(s)).fold(0.0, f64::max),
+            Sh::Polyline(vs) => vs.iter().map(|p| p.coords.norm()).fold(0.0, f64::max),
         }
+    }
+    fn quarter(r: &mut Rng, k: i64) -> f64 { r.range(-k, k) as f64 * 0.25 }
+    fn iso_of(c: (f64, f64), t: Vector<Real>) -> Isometry<Real> {
+        Isometry::from_parts(na::Translation2::from(t), na::Unit::new_unchecked(na::Complex::new(c.0, c.1)))
+    }
+    /// rotations whose arithmetic is exact: multiples of 90 degrees
+    fn exact_rot(r: &mut Rng) -> (f64, f64) { *r.pick(&[(1.0, 0.0), (0.0, 1.0), (-1.0, 0.0), (0.0, -1.0)]) }
+    fn gen_part(r: &mut Rng, lat: bool) -> Sh {
+        let e = |r: &mut Rng| if lat { *r.pick(&[0.25, 0.5, 1.0, 1.5, 2.0]) } else { r.uniform(0.2, 2.0) };
+        match r.below(3) {
+            0 => Sh::Ball(e(r)),
+            1 => Sh::Cuboid(Vector::new(e(r), e(r))),
+            _ => { let c = |r: &mut Rng| if lat { quarter(r, 6) } else { r.uniform(-1.5, 1.5) };
+                   let a = Point::new(c(r), c(r)); let mut bb = Point::new(c(r), c(r)); if (bb - a).norm() < 0.25 { bb.x += 1.0; }
+                   Sh::Capsule(a, bb, e(r).min(1.0)) }
+        }
+    }
+    fn gen_compound(r: &mut Rng, lat: bool) -> Sh {
+        let n = 2 + r.below(3) as usize;
+        Sh::Compound((0..n).map(|_| {
+            let c = |r: &mut Rng| if lat { quarter(r, 6) } else { r.uniform(-1.5, 1.5) };
+            let rot = d2::gen_rot(r, lat);
+            (iso_of(rot, Vector::new(c(r), c(r))), gen_part(r, lat))
+        }).collect())
+    }
+    /// open or closed polygonal chain with 3-6 vertices
+    fn gen_polyline(r: &mut Rng, lat: bool) -> Sh {
+        let n = 3 + r.below(4) as usize;
+        let c = |r: &mut Rng| if lat { quarter(r, 10) } else { r.uniform(-2.5, 2.5) };
+        let mut vs: Vec<Point<Real>> = Vec::new();
+        while vs.len() < n { let p = Point::new(c(r), c(r)); if vs.iter().all(|q| (q - p).norm() > 0.2) { vs.push(p); } }
+        if r.bool() { let f = vs[0]; vs.push(f); }
+        Sh::Polyline(vs)
+    }
+    fn interior_point(r: &mut Rng, s: &Sh) -> Point<Real> {
+        match s {
+            Sh::Compound(ps) => { let (m, _) = r.pick(ps).clone(); m * Point::origin() }
+            Sh::Polyline(vs) => Point::from(vs.iter().fold(Vector::zeros(), |acc, p| acc + p.coords) / vs.len() as f64),
+            _ => Point::origin(),
+        }
+    }
+    fn extent_along(s: &Sh, rot: &Isometry<Real>, axis: &Vector<Real>) -> Option<f64> {
+        let g = dynsh(s);
+        g.as_support_map().map(|sm| sm.support_point(rot, axis).coords.dot(axis))
     }
     fn gen_poses(r: &mut Rng, lat: bool, s1: &Sh, s2: &Sh) -> (Isometry<Real>, Isometry<Real>, Isometry<Real>) {
         let ts = if r.below(4) == 0 { 1000.0 } else { 20.0 };
@@ -546,5 +842,91 @@ pub mod two {
             v.push(("o2_distance".into(), sw.clone()));
             v.push(("o2_it".into(), sw));
         }
+        // ---- composites (Compound of overlapping rotated parts, Polyline)
+        {
+            let comp = if r.below(3) == 0 { gen_polyline(r, lat) } else { gen_compound(r, lat) };
+            let other = match r.below(8) { 0 => gen_compound(r, lat), 1 => gen_polyline(r, lat), 2 => Sh::Ball(if lat { *r.pick(&[0.25, 0.5, 1.0]) } else { r.uniform(0.1, 1.5) }),
+                                          3 => Sh::HalfSpace(gen_normal(r, lat)), _ => gen_part(r, lat) };
+            let (p1, mut p2, _) = gen_poses(r, lat, &comp, &other);
+            if r.below(3) == 0 { p2.translation.vector = (p1 * interior_point(r, &comp)).coords; }
+            let (s1, p1, s2, p2) = if r.bool() { (comp, p1, other, p2) } else { (other, p2, comp, p1) };
+            let glat = lat && r.bool(); let g = d2::gen_iso(r, glat, 100.0);
+            let par = super::gen_param(r, lat);
+            let sw = format!("{} {} {} {} {}", hsh(&s1), d2::hiso(&p1), hsh(&s2), d2::hiso(&p2), d2::hiso(&g));
+            v.push(("o2_contact".into(), format!("{} {}", sw, hx(par))));
+            v.push(("o2_cp".into(), format!("{} {}", sw, hx(par))));
+            v.push(("o2_distance".into(), sw.clone()));
+            v.push(("o2_it".into(), sw));
+        }
+        // ---- exact ties
+        if lat {
+            for _ in 0..2 {
+                let dy = |r: &mut Rng| *r.pick(&[0.25, 0.5, 1.0, 1.5, 2.0]);
+                let mk = |r: &mut Rng| -> Sh { match r.below(6) {
+                    0 => Sh::Ball(dy(r)), 1 => Sh::Cuboid(Vector::new(dy(r), dy(r))),
+                    2 => Sh::Capsule(Point::new(quarter(r, 4), quarter(r, 4)), Point::new(quarter(r, 4), quarter(r, 4) + 1.0), dy(r).min(1.0)),
+                    3 => Sh::Triangle(Point::new(quarter(r, 6), quarter(r, 6)), Point::new(quarter(r, 6) + 2.0, quarter(r, 6)), Point::new(quarter(r, 6), quarter(r, 6) + 2.0)),
+                    4 => Sh::Segment(Point::new(quarter(r, 6), quarter(r, 6)), Point::new(quarter(r, 6), quarter(r, 6) + 1.5)),
+                    _ => Sh::HalfSpace(Vector::zeros()) } };
+                let (mut s1, s2) = loop { let a1 = mk(r); let a2 = mk(r); if !matches!(a2, Sh::HalfSpace(_)) { break (a1, a2); } };
+                let ax = r.below(2) as usize; let mut axis = Vector::zeros(); axis[ax] = if r.bool() { 1.0 } else { -1.0 };
+                let c1 = exact_rot(r); let c2 = exact_rot(r);
+                let r1 = iso_of(c1, Vector::zeros()); let r2 = iso_of(c2, Vector::zeros());
+                if let Sh::HalfSpace(_) = s1 { s1 = Sh::HalfSpace(r1.inverse_transform_vector(&axis)); }
+                let e1 = match &s1 { Sh::HalfSpace(_) => Some(0.0), x => extent_along(x, &r1, &axis) };
+                let e2 = extent_along(&s2, &r2, &(-axis));
+                if let (Some(e1), Some(e2)) = (e1, e2) {
+                    let par = *r.pick(&[0.0, 0.25, 0.5, 1.0]);
+                    let gap = if r.bool() { 0.0 } else { par };
+                    let t1 = Vector::new(quarter(r, 40), quarter(r, 40));
+                    let mut lateral = Vector::new(quarter(r, 1), quarter(r, 1)); lateral[ax] = 0.0;
+                    let p1 = iso_of(c1, t1);
+                    let p2 = iso_of(c2, t1 + axis * (e1 + e2 + gap) + lateral);
+                    let g = iso_of(exact_rot(r), Vector::new(quarter(r, 40), quarter(r, 40)));
+                    let sw = format!("{} {} {} {} {}", hsh(&s1), d2::hiso(&p1), hsh(&s2), d2::hiso(&p2), d2::hiso(&g));
+                    v.push(("o2_contact".into(), format!("{} {}", sw, hx(par))));
+                    v.push(("o2_cp".into(), format!("{} {}", sw, hx(par))));
+                    v.push(("o2_distance".into(), sw.clone()));
+                    v.push(("o2_it".into(), sw));
+                }
+            }
+        }
+        // ---- shape casts
+        for _ in 0..2 {
+            let all: [u8; 6] = [0, 1, 2, 3, 4, 5];
+            let (s1, s2) = loop {
+                let pick = |r: &mut Rng| match r.below(10) { 0 => gen_compound(r, lat), 1 => gen_polyline(r, lat), _ => gen_shape(r, lat, &all) };
+                let s1 = pick(r); let s2 = pick(r);
+                if !matches!((&s1, &s2), (Sh::HalfSpace(_), Sh::HalfSpace(_))) { break (s1, s2); }
+            };
+            let ts = if r.below(4) == 0 { 1000.0 } else { 20.0 };
+            let p1 = d2::gen_iso(r, lat, ts);
+            let mut p2 = d2::gen_iso(r, lat, 1.0);
+            let reach = size(&s1) + size(&s2);
+            let dir = gen_normal(r, lat);
+            let k = if lat { *r.pick(&[0.5, 1.5, 2.0, 3.0]) } else { r.uniform(0.3, 3.5) };
+            p2.translation.vector = p1.translation.vector + dir * (reach * k + if lat { 0.25 } else { 0.1 });
+            let speed = if lat { *r.pick(&[0.25, 1.0, 4.0]) } else { r.logu(1e-2, 1e2) };
+            let noise = if lat { Vector::new(quarter(r, 1), quarter(r, 1)) * 0.5 } else { d2::gen_v(r, false, 0.3) };
+            let vrel = match r.below(10) { 0 => Vector::zeros(), 1 => dir * speed, _ => (-dir + noise) * speed };
+            let v1 = if r.bool() { Vector::zeros() } else if lat { Vector::new(quarter(r, 8), quarter(r, 8)) } else { d2::gen_v(r, false, 5.0) };
+            let v2 = v1 + vrel;
+            let target = if r.bool() { 0.0 } else if lat { *r.pick(&[0.25, 0.5]) } else { r.logu(1e-2, 1.0) };
+            let maxtoi = match r.below(4) { 0 => reach * k / speed * r.uniform(0.2, 1.5), 1 => 1.0e3, _ => f64::MAX };
+            let glat = lat && r.bool(); let g = d2::gen_iso(r, glat, 100.0);
+            v.push(("o2_cast".into(), format!("{} {} {} {} {} {} {} {} {} {}", hsh(&s1), d2::hiso(&p1), d2::hv(&v1), hsh(&s2), d2::hiso(&p2), d2::hv(&v2),
+                d2::hiso(&g), hx(target), b(r.bool()), hx(maxtoi))));
+        }
+    }
+    /// C02: contact self-consistency cases in 2-D (Compound with rotated parts / Polyline against convex shapes, both orders)
+    pub fn gen_k(r: &mut Rng, lat: bool, v: &mut Vec<(String, String)>) {
+        let all: [u8; 6] = [0, 1, 2, 3, 4, 5];
+        let comp = if r.below(4) == 0 { gen_polyline(r, lat) } else { gen_compound(r, lat) };
+        let other = match r.below(6) { 0 => gen_compound(r, lat), 1 => gen_shape(r, lat, &all), _ => gen_part(r, lat) };
+        let (p1, mut p2, _) = gen_poses(r, lat, &comp, &other);
+        if r.below(4) == 0 { p2.translation.vector = (p1 * interior_point(r, &comp)).coords; }
+        let pred = super::gen_param(r, lat).max(if lat { 0.5 } else { 0.3 });
+        v.push(("k2_contact".into(), format!("{} {} {} {} {}", hsh(&comp), d2::hiso(&p1), hsh(&other), d2::hiso(&p2), hx(pred))));
+        v.push(("k2_contact".into(), format!("{} {} {} {} {}", hsh(&other), d2::hiso(&p2), hsh(&comp), d2::hiso(&p1), hx(pred))));
     }
 }
